@@ -21,7 +21,7 @@ RULE = ("cases = (literal, position): literals of length 0..40 over the clean al
         "(column DEFAULT, column COMMENT, table COMMENT hql, table COMMENT = snowflake, inline CHECK comparand, named table CHECK, "
         "CREATE TYPE enum value, mysql ENUM column value, LOCATION, TBLPROPERTIES value, schema COMMENT, ALTER ADD DEFAULT FOR); "
         "numeric defaults of 1..19 digits with leading zeros. Non-trivial = every (literal, position) pair; distinct = distinct pair.")
-RULE += (" Added after seeded defects: the respacing known finding is classified by a frozen executable model of the pinned substitutions (anything else on such a literal is a violation), more parenthesis literals, a backslash-escaped quote class (verbatim at the two positions that translate the placeholder back, exact-model known finding elsewhere).")
+RULE += (" Added after seeded defects: the respacing known finding is classified by a frozen executable model of the pinned substitutions (anything else on such a literal is a violation), more parenthesis literals, a backslash-escaped quote class (verbatim at the two positions that translate the placeholder back, exact-model known finding elsewhere); words that are or merely contain a grammar keyword (FOR, forever, platform ... over every keyword); BigQuery column/table OPTIONS(description=...) as two more positions; the same texts as double-quoted literals (with ' # ', ' -- ' inside) in every position that reads them.")
 ASSUMPTIONS = ["no literal contains an unpaired quote or a backslash", "a literal is placed on one line (no TAB/newline directly before it: C05 owns that)"]
 MIN_EVENTS = {"statements": 100, "run_return": 100}
 
@@ -69,6 +69,10 @@ POS = {
     "schemacomment": ("CREATE SCHEMA sc COMMENT = {L};", (0, "comment"), "sql", None),
     "alterdefault": ("CREATE TABLE t (a int, b int);\nALTER TABLE t ADD CONSTRAINT df DEFAULT {L} FOR a;", (0, "columns", 0, "default"), "sql", None),
 }
+POS["bq_coloption"] = ("CREATE TABLE p.d.t (\n  a INT64 OPTIONS(description={L}),\n  b INT64\n);", (0, "columns", 0, "options", 0, "description"), "bigquery", None)
+POS["bq_taboption"] = ("CREATE TABLE p.d.t (\n  a INT64\n) OPTIONS(description={L});", (0, "options", 0, "description"), "bigquery", None)
+# double-quoted literals (BigQuery / MySQL style) are read as literals in every position but these three (calibrated on the pinned tree)
+NO_DOUBLE_QUOTED = {"colcomment", "schemacomment", "tabcomment_hql"}
 EXTRA_PATHS = {"alterdefault": [(0, "alter", "defaults", 0, "value")]}
 _base = {}
 
@@ -87,8 +91,41 @@ def gen_clean(rng):
         s += rng.choice(WORDS)
     if rng.random() < 0.25:
         s = rng.choice(WORDS) + " " + s
+    if rng.random() < 0.3:
+        s = _kw_word(rng) + (" " + s if rng.random() < 0.5 else "")
     s = s.replace("/*", "/ *").replace("*/", "* /")
     return "'" + s + "'"
+
+
+_KW = []
+
+
+def _kw_word(rng):
+    """a word that is, or merely contains, the letters of a grammar keyword: FOR, forever, platform, Before ... (every keyword of the grammar)"""
+    if not _KW:
+        from vf.gen import vocab
+        _KW.extend(sorted(k for k in vocab.grammar_keywords() if k.isalpha()))
+    k = rng.choice(_KW)
+    form = rng.randrange(6)
+    if form == 0:
+        return k
+    if form == 1:
+        return k.lower()
+    if form == 2:
+        return k.capitalize() + " Information"
+    if form == 3:
+        return "plat" + k.lower() + "m"
+    if form == 4:
+        return k.lower() + "ever"
+    return "be" + k.lower() + "e " + k
+
+
+def gen_double_quoted(rng):
+    """the same texts between double quotes (single quotes inside are doubled so the script's quotes stay paired)"""
+    inner = gen_clean(rng)[1:-1].replace('"', "").replace("/*", "/ *").replace("*/", "* /")
+    if rng.random() < 0.3:
+        inner += rng.choice([" # ", " # 42 in tracker", " -- x", "it''s", "a # b # c", "#", " #"])
+    return '"' + inner.replace("/*", "/ *").replace("*/", "* /") + '"'
 
 
 def gen_bad(rng):
@@ -181,8 +218,11 @@ def check_case(ctx, case):
     try:
         got = _get(r[1], *path)
     except (KeyError, IndexError, TypeError):
-        ctx.violation("literal_position_missing", dict(case, ddl=ddl), {"result": short(r[1], 400)},
-                      kf=kfkey if feat in ("blockopen", "blockclose") else None)
+        k = kfkey if feat in ("blockopen", "blockclose") else None
+        if k is None and pos in ("bq_coloption", "bq_taboption") and lit[:1] == "'" and "''" in lit[1:-1] and r[1] == []:
+            # listed defect: OPTIONS(key=value) reads exactly one string token, a doubled quote makes two; only 'statement lost' is listed
+            k = "C07:doubled-quote-in-options-literal"
+        ctx.violation("literal_position_missing", dict(case, ddl=ddl), {"result": short(r[1], 400)}, kf=k)
         return
     if got != exp or type(got) is not type(exp):
         k = None
@@ -234,6 +274,10 @@ def run_shard(ctx):
         check_case(ctx, {"gen": "clean", "literal": lit, "position": rng.choice(positions)})
         if j == 0:
             ctx.sample({"literal": lit, "ddl": POS["default"][0].format(L=lit)})
+    dq_positions = [p for p in positions if p not in NO_DOUBLE_QUOTED]
+    for j in range(ctx.budget(600, 20000)):
+        check_case(ctx, {"gen": "double_quoted", "literal": gen_double_quoted(rng), "position": rng.choice(dq_positions)})
+        ctx.obs["double_quoted_literals"] += 1
     for j in range(ctx.budget(900, 16000)):
         lit, feat = gen_bad(rng)
         check_case(ctx, {"gen": "known_bad_feature", "literal": lit, "position": rng.choice(positions), "feature": feat})
